@@ -74,11 +74,11 @@ def gen_huge(rng):
     a = rng.choice([0x8000, 0x8000, 0xFFF0, 0x10000, 0x123])
     n = rng.choice([0x20000, 0x20000, 0x18001, 0x2FFFF])
     big = [{'k': 'org', 'e': ('num', a)}, {'k': 'fill', 'cnt': ('num', n), 'val': ('num', rng.randint(1, 255))}]
-    # (disjoint controls of this size are left out: the model's address map mirrors the dictionary of the real code entry by
-    # entry and takes minutes for 10**5 bytes; the ordinary cases have disjoint controls in plenty)
-    where = rng.choice(['middle', 'middle', 'middle', 'near-start', 'near-end', 'last-byte'])
+    # (a disjoint control of this size costs the model some seconds - the image is built line by line with the bytes of each
+    # line in an array, `imageFastA` - so there is one in seven)
+    where = rng.choice(['middle', 'middle', 'middle', 'near-start', 'near-end', 'last-byte', 'behind'])
     at = a + {'middle': rng.choice([0x10000, min(n - 8, 0x10000 + rng.randint(0, 0xFFF0)), n // 2]), 'near-start': rng.randint(0, 0x200),
-              'near-end': n - rng.randint(5, 0x200), 'last-byte': n - 1}[where]
+              'near-end': n - rng.randint(5, 0x200), 'last-byte': n - 1, 'behind': n + rng.choice([0, 1, 0x100])}[where]
     small = [{'k': 'org', 'e': ('num', at)}, {'k': 'data', 'w': 1, 'vals': [('num', 1), ('num', 2), ('num', 3), ('num', 4)]}]
     stmts = big + small if rng.random() < 0.5 else small + big
     return {'cfg': cfg, 'files': [stmts], 'start': 0, 'end': None, 'fill': 0, 'seed': rng.randrange(1 << 30), 'huge': where}
